@@ -132,6 +132,8 @@ def build(n, gates, outputs=(), labs=None):
         f = fresh_str
     else:
         f = lambda x: x  # noqa: E731
+    if VARIANT[0] == 'requeried':
+        return _build_requeried(n, gates, outputs, labs)
     c = Circuit()
     c.add_inputs([f(labs[i]) for i in range(n)])
     for j, (t, ops) in enumerate(gates):
@@ -139,6 +141,68 @@ def build(n, gates, outputs=(), labs=None):
     if outputs:
         c.set_outputs([f(labs[o]) for o in outputs])
     return variant(c)
+
+
+def warm_up_queries(c):
+    """Every read-only public query, so that anything the library might remember about this object exists."""
+    import copy
+    import itertools as it
+
+    n = len(c.inputs)
+    qs = [c.get_truth_table, c.get_gates_truth_table, lambda: list(c.top_sort()), lambda: list(c.top_sort(inverse=True)),
+          c.format_circuit, lambda: copy.copy(c), c.is_constant, c.is_monotone, c.is_symmetric,
+          lambda: c.evaluate_full_circuit({}), lambda: c.evaluate_circuit({}), lambda: list(c.dfs()), lambda: list(c.bfs())]
+    if n <= 4:
+        for x in it.product((False, True), repeat=n):
+            qs.append(lambda x=x: c.evaluate(list(x)))
+            qs.append(lambda x=x: [c.evaluate_at(list(x), i) for i in range(len(c.outputs))])
+            qs.append(lambda x=x: c.evaluate_full_circuit(dict(zip(c.inputs, x))))
+    try:
+        from cirbo.sat.cnf import tseytin_transformation
+
+        qs.append(lambda: tseytin_transformation(c))
+    except Exception:  # noqa: BLE001
+        pass
+    try:
+        from cirbo.circuits_db.circuits_encoding import encode_circuit
+
+        qs.append(lambda: encode_circuit(c))
+    except Exception:  # noqa: BLE001
+        pass
+    for q in qs:
+        try:
+            q()
+        except Exception:  # noqa: BLE001
+            pass
+
+
+def _build_requeried(n, gates, outputs, labs):
+    """The same circuit, reached by a detour: a precursor (inputs declared in reverse order, last gate of another
+    type, other outputs) is built, queried in every read-only way, and then turned into the wanted circuit by
+    public mutators.  Whatever the library remembered about the precursor is stale now."""
+    from cirbo.core.circuit import Circuit, gate as G
+
+    c = Circuit()
+    c.add_inputs([labs[i] for i in range(n)])
+    c.set_inputs([labs[i] for i in reversed(range(n))])
+    k = len(gates)
+    for j, (t, ops) in enumerate(gates):
+        if j == k - 1:
+            alt = 'NOR' if len(ops) >= 2 and t != 'NOR' else 'OR' if len(ops) >= 2 else ('IFF' if t == 'NOT' else 'NOT') if len(ops) == 1 else ('ALWAYS_FALSE' if t == 'ALWAYS_TRUE' else 'ALWAYS_TRUE')
+            c.emplace_gate(labs[n + j], getattr(G, alt), tuple(labs[o] for o in ops))
+        else:
+            c.emplace_gate(labs[n + j], getattr(G, t), tuple(labs[o] for o in ops))
+    pre_outs = [labs[n + k - 1]] if k else ([labs[0]] if n else [])
+    c.set_outputs(pre_outs)
+    warm_up_queries(c)
+    c.set_outputs([])
+    if k:
+        t, ops = gates[-1]
+        c.remove_gate(labs[n + k - 1])
+        c.emplace_gate(labs[n + k - 1], getattr(G, t), tuple(labs[o] for o in ops))
+    c.set_inputs([labs[i] for i in range(n)])
+    c.set_outputs([labs[o] for o in outputs] if outputs else [])
+    return c
 
 
 def build_from_net(net):
